@@ -902,3 +902,68 @@ V("c20-xml-level-integer", "C20", "fire", "C20.R2",
 V("c20-xml-syslog-not-handler", "C20", "fire", "C20.R2",
   (LX, '  <sectiontype name="syslog"\n               datatype=".handlers.SyslogHandlerFactory"\n               implements="ZConfig.logger.handler"',
        '  <sectiontype name="syslog"\n               datatype=".handlers.SyslogHandlerFactory"'))
+
+# ------------------------------------------------ session 4: new rules
+CP = "src/ZConfig/cfgparser.py"
+CM = "src/ZConfig/cmdline.py"
+INFO = "src/ZConfig/info.py"
+
+# C14.R9: a second rejecting call before the hand-over is a *new* violation
+# next to the known finding (F24); a pure reordering of the two stores is not
+V("c14-judged-before-dropped-2", "C14", "fire", "C14.R9",
+  (CP, "        if not value:\n            value = ''\n        else:\n"
+       "            value = self.replace(value)",
+       "        if not value:\n            value = ''\n        else:\n"
+       "            value = self.replace(value)\n"
+       "        self.replace(key)"))
+# C12.R9: the reset dropped from the top-level load / kept but after the parse
+V("c12-no-reset", "C12", "fire", "C12.R9",
+  (LD, "        self.schema = self._base_schema\n"
+       "        self._private_schema = False\n"
+       "        sm = self.createSchemaMatcher()",
+       "        sm = self.createSchemaMatcher()"))
+V("c12-flag-not-reset", "C12", "fire", "C12.R9",
+  (LD, "        self.schema = self._base_schema\n"
+       "        self._private_schema = False\n"
+       "        sm = self.createSchemaMatcher()",
+       "        self.schema = self._base_schema\n"
+       "        sm = self.createSchemaMatcher()"))
+V("c12-restore-after-ok", "C12", "silent", None,
+  (LD, "        self.schema = self._base_schema\n"
+       "        self._private_schema = False\n"
+       "        sm = self.createSchemaMatcher()\n"
+       "        self._open_urls.append(resource.url)\n"
+       "        try:\n"
+       "            self._parse_resource(sm, resource)\n"
+       "        finally:\n"
+       "            self._open_urls.pop()",
+       "        self.schema = self._base_schema\n"
+       "        self._private_schema = False\n"
+       "        sm = self.createSchemaMatcher()\n"
+       "        self._open_urls.append(resource.url)\n"
+       "        try:\n"
+       "            self._parse_resource(sm, resource)\n"
+       "        finally:\n"
+       "            self._open_urls.pop()\n"
+       "            self._private_schema = False"))
+# C12.R8 / C14.R8: another lookup through the stale snapshot
+V("c12-stale-lookup-2", "C12", "fire", "C12.R8",
+  (CM, "    def finish(self):\n        if self.sectitems or self.keypairs:",
+       "    def finish(self):\n        self.schema.gettypenames()\n"
+       "        if self.sectitems or self.keypairs:"))
+# C13.R4 (structural): something that can fail after the memo store
+V("c13-memo-store-early", "C13", "fire", "C13.R4",
+  (DT, "            v = self._conversion(value)\n"
+       "            self._memo[value] = v\n",
+       "            self._memo[value] = None\n"
+       "            v = self._conversion(value)\n"
+       "            self._memo[value] = v\n"))
+# C07.R1 implicit TypeError: None joined into a message
+V("c07-join-none", "C07", "fire", "C07.R1",
+  (LD, '                "recursive %include of " + url, url)',
+       '                "recursive %include of " + " -> ".join(\n'
+       '                    self._open_urls), url)'))
+V("c07-join-guarded-ok", "C07", "silent", None,
+  (LD, '                "recursive %include of " + url, url)',
+       '                "recursive %include of " + " -> ".join(\n'
+       '                    u for u in self._open_urls if u), url)'))
